@@ -36,6 +36,17 @@ TOL = 1e-5
 DIMS = [[2, 2], [2, 3], [3, 2]]
 
 
+def _counts(draw, n):
+    """exact dyadic prior; every fourth one has a state of prior exactly zero (seeded changes C11-t3 / C12-t2)"""
+    counts = draw(gen.dyadic_probs(n, m=6, allow_zero=False))
+    if n >= 2 and draw(st.integers(0, 3)) == 0:
+        z = draw(st.integers(0, n - 1))
+        t = (z + 1 + draw(st.integers(0, n - 2))) % n
+        counts[t] += counts[z]
+        counts[z] = 0
+    return counts
+
+
 @st.composite
 def _case(draw, forms=("ket1d", "ketcol", "dm"), families=("generic", "mixed", "bell", "product"), nmax=4):
     dims = draw(st.sampled_from(DIMS))
@@ -58,7 +69,7 @@ def _case(draw, forms=("ket1d", "ketcol", "dm"), families=("generic", "mixed", "
         "rank": draw(st.integers(1, 3)),
         "seed": draw(gen.SEED),
         "probs": pk,
-        "counts": draw(gen.dyadic_probs(n, m=6, allow_zero=False)) if pk == "dyadic" else None,
+        "counts": _counts(draw, n) if pk == "dyadic" else None,
         "party": draw(st.integers(0, 1)),
         "useed": draw(gen.SEED),
         # first state stored as a real array, the others complex (seeded change C12-s2 keys on the first state's dtype)
